@@ -90,6 +90,9 @@ typedef struct {
     void (*gen)(plan *p, uint64_t seed, const char *cfg);  /* seed -> plan */
     void (*run)(const plan *p);                         /* plan -> execution (fills g_viol, g_stats) */
     const char *rule;                                   /* what makes a run non-trivial */
+    /* single-fault sweep (optional): pick < 0 -> number of placements for the base program of `seed`;
+     * pick >= 0 -> the base plan plus placement #pick in *out */
+    int (*sweep)(uint64_t seed, const char *cfg, int pick, plan *out);
 } engine;
 extern const engine eng_events, eng_hheap, eng_coro, eng_procs, eng_mempool, eng_rng, eng_experiment, eng_util;
 const engine *engine_by_name(const char *name);
